@@ -49,6 +49,7 @@ EntryOK(S, e) ==
          e.rows = S.nodes /\ e.cols = S.nodes /\ RatMat(e, LAMBDA a, b : NormCoreW(S, a, b))
     [] e.kind = "tensor" ->
          LET sets == {S.e2n[x] : x \in Range(cols)} IN
+         /\ e.m[1] = [k \in 1..(e.d + 1) |-> Len(S.nodes)]   \* also when no edge has the requested order
          /\ \A k \in DOMAIN e.tuples : NoDup(e.tuples[k]) /\ Range(e.tuples[k]) \in sets
          /\ Cardinality(Range(e.tuples)) = Len(e.tuples)
          /\ Len(e.tuples) = Cardinality(sets) * Fact(e.d + 1)
@@ -57,7 +58,9 @@ EntryOK(S, e) ==
 
 Verdict(r) ==
   LET S == FromJ(r.st) IN
-  IF ~Integrity(S) THEN <<"tainted">>
+  \* the input was built by the harness through public calls only: if it is not even consistent the
+  \* check cannot vouch for the property on it (and some call broke C01 / C03 on the way)
+  IF ~Integrity(S) THEN <<"C12:input.not-a-consistent-network">>
   ELSE LET bad == SelectSeq([k \in DOMAIN r.obs |-> k], LAMBDA k : ~EntryOK(S, r.obs[k]))
        IN [k \in DOMAIN bad |-> "C12:" \o r.obs[bad[k]].what]
 
